@@ -883,14 +883,48 @@ pub fn c14(ctx: &Ctx, rep: &mut Report) {
     }
     let mut rng = Rng::new(ctx.seed);
     let ms = [Method::Single, Method::Complete, Method::Average, Method::Weighted, Method::Ward];
-    let classes = ["sorted", "revsorted", "allequal", "lattice", "geomline", "twovalued", "uniform", "euclid"];
+    let classes = ["sorted", "revsorted", "allequal", "lattice", "geomline", "twovalued", "uniform", "euclid", "colmajor"];
     let mut cases = gen_cases(
         &mut rng,
         &GenSpec { count: n_cases(ctx, 1500, 20000), max_n: if ctx.thorough { 300 } else { 60 }, classes: &classes, algs: &[Alg::Mst, Alg::Nnchain, Alg::Linkage], methods: &ms, min_n: 8 },
     );
+    // deterministic adversarial families: collinear geometric progressions with growing AND decaying
+    // gaps (long nearest-neighbour chains), all five methods, through linkage and nnchain
+    for &n in (if ctx.thorough { &[64usize, 128, 256, 512][..] } else { &[64usize, 128, 256][..] }) {
+        for &ratio in &[0.9f64, 0.7, 1.1, 1.5] {
+            for &m in &ms {
+                for alg in [Alg::Linkage, Alg::Nnchain] {
+                    let mut x = 1.0f64;
+                    let mut gap = 1.0f64;
+                    let mut pts = vec![];
+                    for _ in 0..n {
+                        pts.push(x);
+                        x += gap;
+                        gap *= ratio;
+                        if gap > 1e60 { gap = 1e60; }
+                    }
+                    let mut vals = vec![];
+                    for i in 0..n {
+                        for j in i + 1..n {
+                            vals.push((pts[j] - pts[i]).abs());
+                        }
+                    }
+                    let w32 = false;
+                    cases.push(Case { alg, method: m, w32, n, bits: gen::to_bits("uniform", w32, &vals), class: "geomgap" });
+                }
+            }
+        }
+        for &m in &ms {
+            for w32 in [false, true] {
+                let mut r2 = rng.fork();
+                let vals = gen::matrix(&mut r2, "colmajor", n);
+                cases.push(Case { alg: Alg::Linkage, method: m, w32, n, bits: gen::to_bits("colmajor", w32, &vals), class: "colmajor" });
+            }
+        }
+    }
     let bigs: &[usize] = if ctx.thorough { &[500, 1000, 2000] } else { &[200, 400] };
     for &n in bigs {
-        for class in ["sorted", "revsorted", "allequal", "geomline", "lattice"] {
+        for class in ["sorted", "revsorted", "allequal", "geomline", "lattice", "colmajor"] {
             for &m in &ms {
                 let alg = if let Method::Single = m { *rng.pick(&[Alg::Mst, Alg::Nnchain, Alg::Linkage]) } else { *rng.pick(&[Alg::Nnchain, Alg::Linkage]) };
                 let w32 = rng.below(2) == 0;
